@@ -108,6 +108,7 @@ type wobj struct {
 	dgramsSent [][]byte // datagrams the peer sent, not yet read
 	twoInFlight bool
 	broken      bool // descriptor replaced underneath (C03): epoll_ctl fails for it
+	deadlineArmed bool // a write deadline is set on the adapter's net.Conn: a big write returns (n>0, timeout) instead of blocking
 }
 
 func (o *wobj) name() string { return fmt.Sprintf("o%d:%s", o.id, o.kind) }
@@ -458,7 +459,7 @@ func (w *world) startOp(o *wobj, kind string, size int, prog []whop, from string
 	if !w.canStart(o, kind) {
 		return nil
 	}
-	if (o.kind == kAdUnix || o.kind == kAdTCP) && (kind == "write" || kind == "writeAll") {
+	if (o.kind == kAdUnix || o.kind == kAdTCP) && (kind == "write" || kind == "writeAll") && !o.deadlineArmed {
 		// an AsyncAdapter writes through net.Conn.Write, which blocks the calling goroutine until everything is
 		// written: the harness is that goroutine, so the write must fit into the socket buffer
 		if size > 8192 {
@@ -645,6 +646,10 @@ func (w *world) account(p *wop, err error, n int) {
 			}
 		}
 		o.wrOff += int64(n)
+		if err != nil && errors.Is(err, os.ErrDeadlineExceeded) {
+			// the connection is healthy: exactly n bytes went out, the next write continues right after them
+			break
+		}
 		if err != nil && len(p.buf) > 0 {
 			// after a failed or cancelled write the number of bytes that really left is only bounded below by n;
 			// the stream position of later writes is unknown, so no more writes are issued on this object
@@ -1115,4 +1120,29 @@ func sysxWaitReadable(fd, ms int) bool {
 		return false
 	}
 	return sysx.WaitReadable(fd, ms)
+}
+
+// deadlineWrite issues a large AsyncWriteAll on an adapter whose net.Conn has a short write deadline: the peer is not
+// draining, so net.Conn.Write returns a partial count together with a timeout error. The reported count must be exactly
+// what went out (the stream is continued from it and the peer-side content check notices any shift).
+func (w *world) deadlineWrite(o *wobj, size int, from string) *wop {
+	if o.netc == nil || o.closed || o.wr != nil || o.wrErrored || !o.contentOK || !sysx.WaitWritable(o.rawFd, 0) {
+		return nil
+	}
+	o.deadlineArmed = true
+	p := w.startOp(o, "writeAll", size, nil, from) // deferred: an adapter never writes inline
+	// arm the deadline only now: filling a multi-MiB buffer with position-dependent bytes takes longer than the deadline
+	_ = o.netc.SetWriteDeadline(time.Now().Add(15 * time.Millisecond))
+	// the adapter always defers: the write happens inside the next polls
+	for i := 0; i < 50 && p != nil && p.calls == 0; i++ {
+		sysx.WaitWritable(o.rawFd, 20)
+		w.pollOnce()
+	}
+	if p != nil && p.calls == 0 {
+		// never dispatched (descriptor not writable): get rid of the big write while the deadline still protects it
+		w.cancelObj(o, from)
+	}
+	_ = o.netc.SetWriteDeadline(time.Time{})
+	o.deadlineArmed = false
+	return p
 }
